@@ -105,6 +105,10 @@ func VerifyFunc(ld *Loader, pkg *Pkg, key string) (res *FuncResult) {
 	vc := NewVC(ld, pkg, ct.Mode, fnName)
 	vc.strLits = map[string]Term{}
 	vc.revealAll = ct.Reveal
+	vc.conceal = map[string]bool{}
+	for _, n := range ct.Conceal {
+		vc.conceal[n] = true
+	}
 	res.VC = vc
 	if ct.Trusted || ct.Inline || (ct.Havoc && len(ct.Ensures) == 0 && len(ct.Returns) == 0 && len(ct.AssertBefore) == 0) {
 		// havoc contracts promise nothing, so there is nothing to verify; a
